@@ -293,12 +293,15 @@ theorem invC_stepU (V : Variant) (jobs : List Job) (s s' : State) (k : Nat) (h :
           simp [inHandL]; omega
     · simp at hs
 
-theorem invC_stepA (jobs : List Job) (s s' : State) (h : InvC jobs s) (hs : stepA s = some s') : InvC jobs s' := by
+theorem invC_stepA (V : Variant) (jobs : List Job) (s s' : State) (h : InvC jobs s) (hs : stepA V s = some s') : InvC jobs s' := by
   simp only [stepA] at hs
   split at hs
   · simp at hs; subst hs
     refine ⟨?_, ?_⟩
-    · intro j; have := h.cons j; simp only [inHand, State.subs, List.count_append, List.count_nil] at *; omega
+    · intro j
+      have := h.cons j
+      have hq := congrArg (List.count j) (List.take_append_drop (if V.arrMax = 0 then s.queue.length else V.arrMax) s.queue)
+      simp only [inHand, State.subs, List.count_append, List.count_nil] at *; omega
     · exact h.prog
   · simp at hs
 
@@ -308,7 +311,7 @@ theorem invC_step (V : Variant) (jobs : List Job) (s s' : State) (e : Ev) (h : I
   | S => exact invC_stepS V jobs s s' h hs
   | M k => exact invC_stepM V jobs s s' k h hs
   | U k => exact invC_stepU V jobs s s' k h hs
-  | A => exact invC_stepA jobs s s' h hs
+  | A => exact invC_stepA V jobs s s' h hs
 
 theorem reachable_invC {V : Variant} {jobs : List Job} {s : State} (h : Reachable V jobs s) : InvC jobs s := by
   induction h with
